@@ -39,9 +39,13 @@ func kernPairWF(k *KernPair) bool {
 //@ ensures [C19.list.len] len(result) == f.NumGlyphs()
 //@ loop 1 invariant f != nil && order != nil
 //@ loop 2 invariant f != nil && order != nil
+//@ loop 1 back-when [C19.list.key.unencoded] has(order, name) && order[name] > 255
+//@ loop 2 back-when [C19.list.key.code] name != ".notdef" ==> has(order, name) && order[name] == prev(i) && 0 <= order[name]
+//@ loop 2 back-when [C19.list.key.frame] forall nm string :: nm != name && has(prev(order), nm) ==> has(order, nm) && order[nm] == prev(order[nm])
 
 //@ func (*Metrics).GlyphList$1
 //@ requires 0 <= i && i < len(glyphNames) && 0 <= j && j < len(glyphNames)
+//@ ensures [C19.list.less] result == (order[glyphNames[i]] < order[glyphNames[j]] || (order[glyphNames[i]] == order[glyphNames[j]] && glyphNames[i] < glyphNames[j]))
 
 //@ func (*Metrics).GlyphWidthPDF
 //@ safety C19
